@@ -1,0 +1,163 @@
+//go:build verif
+
+package storage
+
+import (
+	"sort"
+	"sync"
+)
+
+// This file is only compiled with the `verif` build tag. It gives an external
+// verification harness three things the production API does not expose: a
+// callback right before every write to the data file and the log, control
+// over the background flush timer, and a way to abandon a store without
+// flushing it (a simulated process death).
+
+// VerifHook, when non-nil, is called right BEFORE the named event happens.
+// Points: wal.write (arg = number of bytes about to be written), wal.sync,
+// page.write (arg = page offset), header.write, flush.begin, flush.end,
+// cache.set (arg = page offset when it is a uint64 key).
+var VerifHook func(point string, arg uint64)
+
+// VerifNoTimer disables the background flush goroutine of every file store
+// opened while it is set. Stores that would have had a timer are remembered,
+// so that VerifTickAll can run exactly the flushes the timers would run.
+var VerifNoTimer bool
+
+func verifPoint(point string, arg uint64) {
+	if h := VerifHook; h != nil {
+		h(point, arg)
+	}
+}
+
+func verifAutoFlush(autoFlushCache bool) bool {
+	if VerifNoTimer {
+		return false
+	}
+	return autoFlushCache
+}
+
+var verifReg = struct {
+	sync.Mutex
+	seq    int
+	stores map[*fileStore]int
+}{stores: map[*fileStore]int{}}
+
+// verifOpened records a store whose owner asked for a flush timer.
+func verifOpened(fs *fileStore, wantedTimer bool) {
+	if !wantedTimer {
+		return
+	}
+	verifReg.Lock()
+	defer verifReg.Unlock()
+	verifReg.seq++
+	verifReg.stores[fs] = verifReg.seq
+}
+
+func verifClosed(fs *fileStore) {
+	verifReg.Lock()
+	defer verifReg.Unlock()
+	delete(verifReg.stores, fs)
+}
+
+func verifLiveStores() []*fileStore {
+	verifReg.Lock()
+	defer verifReg.Unlock()
+	var ret []*fileStore
+	for fs := range verifReg.stores {
+		ret = append(ret, fs)
+	}
+	sort.Slice(ret, func(i, j int) bool { return verifReg.stores[ret[i]] < verifReg.stores[ret[j]] })
+	return ret
+}
+
+// VerifLiveTimers is the number of open stores that own (or, with
+// VerifNoTimer, would own) a flush timer.
+func VerifLiveTimers() int {
+	return len(verifLiveStores())
+}
+
+// VerifTickAll does what one tick of every live flush timer does: flushPages
+// on each store that was opened with a timer and has not been closed, oldest
+// first, or newest first when reverse is set.
+func VerifTickAll(reverse bool) error {
+	stores := verifLiveStores()
+	if reverse {
+		for i, j := 0, len(stores)-1; i < j; i, j = i+1, j-1 {
+			stores[i], stores[j] = stores[j], stores[i]
+		}
+	}
+	var first error
+	for _, fs := range stores {
+		if err := fs.flushPages(); err != nil && first == nil {
+			first = err
+		}
+	}
+	return first
+}
+
+// VerifAbandonAll simulates process death for every live store: descriptors
+// are closed, nothing is flushed.
+func VerifAbandonAll() {
+	for _, fs := range verifLiveStores() {
+		fs.verifAbandon()
+	}
+}
+
+func (f *fileStore) verifAbandon() {
+	if f.autoFlushCache {
+		f.ticker.Stop()
+		f.tickerDone <- true
+	}
+	f.file.Close()
+	verifClosed(f)
+}
+
+// VerifFlush is one tick of this store's flush timer.
+func (rs *RelationService) VerifFlush() error {
+	return rs.fs.flushPages()
+}
+
+// VerifAbandon simulates process death: close descriptors, flush nothing.
+func (rs *RelationService) VerifAbandon() {
+	rs.wal.close()
+	rs.fs.verifAbandon()
+}
+
+// VerifSetCacheSize replaces the page cache capacity. Call it only while no
+// page is dirty (right after opening or after VerifFlush).
+func (rs *RelationService) VerifSetCacheSize(n int) {
+	rs.fs.lockExclusive()
+	defer rs.fs.unlockExclusive()
+	old := rs.fs.cache
+	rs.fs.cache = NewLRU(n)
+	for e := old.list.Back(); e != nil; e = e.Prev() {
+		ce := e.Value.(*cacheEntry)
+		if ce.val.isDirty() {
+			rs.fs.cache.set(ce.key, ce.val)
+		}
+	}
+}
+
+// VerifDirtyOffsets lists the offsets of all dirty pages in the cache.
+func (rs *RelationService) VerifDirtyOffsets() []uint64 {
+	var ret []uint64
+	for _, v := range rs.fs.cache.cache {
+		node := v.Value.(*cacheEntry).val
+		if node.isDirty() {
+			ret = append(ret, node.getFileOffset())
+		}
+	}
+	sort.Slice(ret, func(i, j int) bool { return ret[i] < ret[j] })
+	return ret
+}
+
+// VerifCacheLen is the number of resident pages.
+func (rs *RelationService) VerifCacheLen() int {
+	return len(rs.fs.cache.cache)
+}
+
+// VerifHeader returns the in-memory header fields of the data file.
+func (rs *RelationService) VerifHeader() (lastKey uint32, pageTableRoot, nextFreeOffset, nextLSN uint64) {
+	return rs.fs.lastKey, rs.fs.pageTableRoot, rs.fs.nextFreeOffset, rs.fs._nextLSN
+}
